@@ -91,17 +91,17 @@ class Prover(object):
             # where the misbehaviour is observable natively although the solver's arbitrary model is not; collect a few more models
             if diversify:
                 got = 0
-                for var, values in diversify:
-                    for val in values:
-                        if got >= 8:
-                            break
-                        s.push()
-                        s.add(var == val)
-                        s.set('timeout', min(self.timeout_ms, 10000))
-                        if s.check() == z3.sat:
-                            self.extra_models.append(s.model())
-                            got += 1
-                        s.pop()
+                for extra in diversify:
+                    if got >= 10:
+                        break
+                    s.push()
+                    for e_ in extra:
+                        s.add(e_)
+                    s.set('timeout', min(self.timeout_ms, 10000))
+                    if s.check() == z3.sat:
+                        self.extra_models.append(s.model())
+                        got += 1
+                    s.pop()
             return 'sat', m0
         if r == z3.unknown:
             self.res.unknown.append(name)
